@@ -1,0 +1,118 @@
+//go:build verif
+
+package gkvlite
+
+// Contracts for the deductive verifier under /verif (govc). Comment-only file:
+// it contributes no code, and is not even parsed unless the build tag is set.
+
+//@ ghost locks (Array Int Int)
+//@ ghost lockdepth Int
+
+// ---------------------------------------------------------------------------
+// Package constants established by init (proved for init, assumed elsewhere;
+// a mechanical scan checks nobody else assigns these variables).
+//@ global plocEmpty != nil && plocEmpty.Offset == 0 && plocEmpty.Length == 0
+
+// ---------------------------------------------------------------------------
+// ploc.go
+
+//@ func (*ploc).isEmpty
+//@   inline
+
+//@ func (*ploc).write
+//@   props C14 C02
+//@   from: C14 anchors.state "node record: 3 x (i64 offset, u32 length)"
+//@   requires 0 <= pos && pos + 12 <= len(b)
+//@   modifies content(b)
+//@   decreases p == nil ? 1 : 0
+//@   ensures pos-advance: result == pos + 12
+//@   ensures [C14,C02] layout: p != nil ==> be64(b, pos) == u64(p.Offset) && be32(b, pos+8) == p.Length
+//@   ensures [C14,C02] nil-is-zero: p == nil ==> (forall i in pos..pos+12 :: b[i] == 0)
+//@   ensures [C14] rest-unchanged: forall i :: 0 <= i && i < len(b) && !(pos <= i && i < pos+12) ==> b[i] == old(b[i])
+
+//@ func (*ploc).read
+//@   props C14 C02
+//@   requires p != nil && 0 <= pos && pos + 12 <= len(b)
+//@   modifies p.Offset, p.Length
+//@   ensures pos-advance: result1 == pos + 12
+//@   ensures [C14,C02] layout: p.Offset == i64(be64(b, pos)) && p.Length == be32(b, pos+8)
+//@   ensures [C14,C02] zero-is-nil: (result0 == nil) == (p.Offset == 0 && p.Length == 0) && (result0 != nil ==> result0 == p)
+
+// ---------------------------------------------------------------------------
+// item_ba.go
+
+//@ func (itemBa).getLength
+//@   inline
+//@ func (itemBa).getKeyLength
+//@   inline
+//@ func (itemBa).getValLength
+//@   inline
+//@ func (itemBa).getPriority
+//@   inline
+
+//@ func (itemBa).render
+//@   props C14 C02
+//@   from: C14 anchors.state "item record: u32 total length, u32 key length, u32 value length, i32 priority (big endian)"
+//@   requires hlength >= 16
+//@   ensures shape: len(result) == hlength && fresh(result)
+//@   ensures [C14,C02] layout: be32(result, 0) == ds.length && be32(result, 4) == ds.keyLength && be32(result, 8) == ds.valLength && be32(result, 12) == u32(ds.priority)
+//@   ensures [C14] zero-tail: forall i in 16..hlength :: result[i] == 0
+
+//@ func (*itemBa).populate
+//@   props C14 C02
+//@   requires ds != nil && len(b) >= 16
+//@   modifies ds.length, ds.keyLength, ds.valLength, ds.priority
+//@   ensures result == ds
+//@   ensures [C14,C02] layout: ds.length == be32(b, 0) && ds.keyLength == be32(b, 4) && ds.valLength == be32(b, 8) && ds.priority == i32(be32(b, 12))
+
+// ---------------------------------------------------------------------------
+// item.go / node.go: leaf accessors (inlined at call sites; the dead
+// `if itemLocMutex`/`if nodeMutex` arms are pruned because the constants are false)
+
+//@ func (*itemLoc).Loc
+//@   inline
+//@ func (*itemLoc).setLoc
+//@   inline
+//@ func (*itemLoc).Item
+//@   inline
+//@ func (*itemLoc).casItem
+//@   inline
+//@ func (*nodeLoc).Loc
+//@   inline
+//@ func (*nodeLoc).setLoc
+//@   inline
+//@ func (*nodeLoc).Node
+//@   inline
+//@ func (*nodeLoc).setNode
+//@   inline
+//@ func (*nodeLoc).LocNode
+//@   inline
+//@ func (*node).setNumBytes
+//@   inline
+//@ func (*node).setNumNodes
+//@   inline
+
+// ---------------------------------------------------------------------------
+// node.go codecs
+
+//@ func (node).populateDiskStruct
+//@   props C14 C02 C13
+//@   from: C14 anchors.state "node record: 3 x (i64 offset, u32 length) for item, left, right (all-zero for absent), u64 numNodes, u64 numBytes = 52 bytes"
+//@   requires length == 52
+//@   ensures [C14,C07] no-error: err == nil
+//@   ensures shape: len(b) == 52 && fresh(b)
+//@   ensures [C14,C02] item-loc: (n.item.loc != nil ==> be64(b, 0) == u64(n.item.loc.Offset) && be32(b, 8) == n.item.loc.Length) && (n.item.loc == nil ==> be64(b, 0) == 0 && be32(b, 8) == 0)
+//@   ensures [C14,C02] left-loc: (n.left.loc != nil ==> be64(b, 12) == u64(n.left.loc.Offset) && be32(b, 20) == n.left.loc.Length) && (n.left.loc == nil ==> be64(b, 12) == 0 && be32(b, 20) == 0)
+//@   ensures [C14,C02] right-loc: (n.right.loc != nil ==> be64(b, 24) == u64(n.right.loc.Offset) && be32(b, 32) == n.right.loc.Length) && (n.right.loc == nil ==> be64(b, 24) == 0 && be32(b, 32) == 0)
+//@   ensures [C14,C02,C13] aggregates: be64(b, 36) == n.numNodes && be64(b, 44) == n.numBytes
+
+//@ func populateNode
+//@   props C14 C02 C13
+//@   requires len(b) == 52
+//@   modifies new ploc.Offset, new ploc.Length, new node.numNodes, new node.numBytes, new itemLoc.loc, new itemLoc.item, new nodeLoc.loc, new nodeLoc.node, new nodeLoc.next, new node.next
+//@   ensures [C14,C07] no-error: err == nil && n != nil && fresh(n)
+//@   ensures [C14,C02] item-loc: (n.item.loc == nil <==> (be64(b, 0) == 0 && be32(b, 8) == 0)) && (n.item.loc != nil ==> n.item.loc.Offset == i64(be64(b, 0)) && n.item.loc.Length == be32(b, 8))
+//@   ensures [C14,C02] left-loc: (n.left.loc == nil <==> (be64(b, 12) == 0 && be32(b, 20) == 0)) && (n.left.loc != nil ==> n.left.loc.Offset == i64(be64(b, 12)) && n.left.loc.Length == be32(b, 20))
+//@   ensures [C14,C02] right-loc: (n.right.loc == nil <==> (be64(b, 24) == 0 && be32(b, 32) == 0)) && (n.right.loc != nil ==> n.right.loc.Offset == i64(be64(b, 24)) && n.right.loc.Length == be32(b, 32))
+//@   ensures [C14,C02,C13] aggregates: n.numNodes == be64(b, 36) && n.numBytes == be64(b, 44)
+//@   ensures [C19] nothing-loaded: n.item.item == nil && n.left.node == nil && n.right.node == nil && n.next == nil
